@@ -45,6 +45,7 @@ def tree_knobs(rng, k):
         inds = inds + alias
     return dict(
         giant=(70000 if k % 8 == 5 else None),
+        blsc_block=[None, 32, 4096][k % 3],
         slab_inds=inds,
         halos_per_slab=hps,
         box=float(rng.choice([1.0, 500.0, 2000.0])),
